@@ -9,7 +9,9 @@
 //	(d) interp/use.go fixStdlib: every p["Name"] = … with its package, guards and free identifiers, the locals;
 //	    interp/run.go _print/_println: free identifiers;
 //	(e) cmd/yaegi/run.go: which symbol sets are loaded under which flag, the flags, the options given to interp.New;
-//	(f) fingerprints of the hand-transcribed functions.
+//	(f) interp/interp.go: the fields of Options and, for each statement of New that reads one, the target, the
+//	    condition that guards the default (`== nil`, `len(…) > 0`, …) and the default;
+//	(g) fingerprints of the hand-transcribed functions.
 package main
 
 import (
@@ -679,6 +681,245 @@ func runFacts(repo string) (uses, flags, opts string, err error) {
 	return j(us), j(fl), j(op), nil
 }
 
+
+// ---- interp.Options and interp.New: how every field of Options reaches the interpreter
+
+type optFlow struct {
+	field, slot, target, kind, cond, dflt string
+	outer                                 []string
+}
+
+func (o optFlow) lean() string {
+	return fmt.Sprintf("⟨%s, %s, %s, %s, %s, %s, %s⟩", q(o.field), q(o.slot), q(o.target), q(o.kind), q(o.cond), q(o.dflt), common.LeanStrList(o.outer))
+}
+
+func mentionsIdent(n ast.Node, name string) bool {
+	found := false
+	ast.Inspect(n, func(x ast.Node) bool {
+		if id, ok := x.(*ast.Ident); ok && id.Name == name {
+			found = true
+		}
+		return !found
+	})
+	return found
+}
+
+// optionsField: is e the selector `options.F`?
+func optionsField(e ast.Expr) (string, bool) {
+	if s, ok := e.(*ast.SelectorExpr); ok {
+		if id, ok := s.X.(*ast.Ident); ok && id.Name == "options" {
+			return s.Sel.Name, true
+		}
+	}
+	return "", false
+}
+
+func short(s string) string {
+	if len(s) > 160 {
+		return s[:160]
+	}
+	return s
+}
+
+// singleAssign: is the block exactly `T = V`?
+func singleAssign(b *ast.BlockStmt) (lhs, rhs ast.Expr, ok bool) {
+	if b == nil || len(b.List) != 1 {
+		return nil, nil, false
+	}
+	as, ok := b.List[0].(*ast.AssignStmt)
+	if !ok || as.Tok != token.ASSIGN || len(as.Lhs) != 1 || len(as.Rhs) != 1 {
+		return nil, nil, false
+	}
+	return as.Lhs[0], as.Rhs[0], true
+}
+
+func optionsFacts(repo string) (fields, flows, stmtsHash string, err error) {
+	_, f, err := common.ParseFile(repo, "interp/interp.go")
+	if err != nil {
+		return "", "", "", err
+	}
+	// the fields of Options
+	var fl []string
+	ast.Inspect(f, func(n ast.Node) bool {
+		ts, ok := n.(*ast.TypeSpec)
+		if !ok || ts.Name.Name != "Options" {
+			return true
+		}
+		st, ok := ts.Type.(*ast.StructType)
+		if !ok {
+			fl = append(fl, fmt.Sprintf("(%s, %s)", q("unrecognised: Options is not a struct"), q(exprString(ts.Type))))
+			return false
+		}
+		for _, fd := range st.Fields.List {
+			t := exprString(fd.Type)
+			if len(fd.Names) == 0 {
+				fl = append(fl, fmt.Sprintf("(%s, %s)", q("embedded "+t), q(t)))
+			}
+			for _, nm := range fd.Names {
+				fl = append(fl, fmt.Sprintf("(%s, %s)", q(nm.Name), q(t)))
+			}
+		}
+		return false
+	})
+	if fl == nil {
+		fl = append(fl, fmt.Sprintf("(%s, %s)", q("unrecognised: type Options not found"), q("")))
+	}
+	fd := common.FindFunc(f, "", "New")
+	if fd == nil || fd.Body == nil {
+		return "[" + strings.Join(fl, ", ") + "]", "[" + optFlow{field: "unrecognised: New not found"}.lean() + "]", "unrecognised: not found", nil
+	}
+	// what the composite literal at the head of New puts into the opt struct
+	init := map[string]string{}
+	for _, st := range fd.Body.List {
+		as, ok := st.(*ast.AssignStmt)
+		if !ok || len(as.Rhs) != 1 {
+			continue
+		}
+		cl, ok := as.Rhs[0].(*ast.CompositeLit)
+		if !ok || exprString(cl.Type) != "Interpreter" {
+			continue
+		}
+		for _, el := range cl.Elts {
+			kv, ok := el.(*ast.KeyValueExpr)
+			if !ok || exprString(kv.Key) != "opt" {
+				continue
+			}
+			if ocl, ok := kv.Value.(*ast.CompositeLit); ok {
+				for _, oel := range ocl.Elts {
+					if okv, ok := oel.(*ast.KeyValueExpr); ok {
+						init[exprString(okv.Key)] = exprString(okv.Value)
+					}
+				}
+			}
+		}
+		break
+	}
+	initOf := func(target string) string {
+		rest := strings.TrimPrefix(target, "i.opt.")
+		if rest == target {
+			return "unrecognised: target outside i.opt"
+		}
+		parts := strings.SplitN(rest, ".", 2)
+		v, ok := init[parts[0]]
+		if !ok {
+			return "zero"
+		}
+		if len(parts) == 2 {
+			return v + "." + parts[1]
+		}
+		return v
+	}
+	slotOf := func(target string) string {
+		parts := strings.Split(target, ".")
+		return parts[len(parts)-1]
+	}
+	var out []optFlow
+	var stmts []ast.Stmt
+	unrec := func(st ast.Node, outer []string) {
+		out = append(out, optFlow{field: "unrecognised: " + short(exprString(st)), outer: outer})
+	}
+	var walk func(list []ast.Stmt, outer []string, top bool)
+	walk = func(list []ast.Stmt, outer []string, top bool) {
+		for _, st := range list {
+			if !mentionsIdent(st, "options") {
+				if !top {
+					unrec(st, outer) // a nested statement that is not about Options: re-read
+				}
+				continue
+			}
+			if top {
+				stmts = append(stmts, st)
+			}
+			switch s := st.(type) {
+			case *ast.AssignStmt:
+				if s.Tok == token.ASSIGN && len(s.Lhs) == 1 && len(s.Rhs) == 1 {
+					if fn, ok := optionsField(s.Rhs[0]); ok {
+						t := exprString(s.Lhs[0])
+						out = append(out, optFlow{fn, slotOf(t), t, "always", "", "", outer})
+						continue
+					}
+				}
+				unrec(st, outer)
+			case *ast.IfStmt:
+				// if T = options.F; COND(T) { T = DFLT }
+				if ia, ok := s.Init.(*ast.AssignStmt); ok && ia.Tok == token.ASSIGN && len(ia.Lhs) == 1 && len(ia.Rhs) == 1 && s.Else == nil {
+					fn, ok1 := optionsField(ia.Rhs[0])
+					lhs, rhs, ok2 := singleAssign(s.Body)
+					t := exprString(ia.Lhs[0])
+					if ok1 && ok2 && exprString(lhs) == t && !mentionsIdent(s.Cond, "options") {
+						out = append(out, optFlow{fn, slotOf(t), t, "default-if", strings.ReplaceAll(exprString(s.Cond), t, "_"), exprString(rhs), outer})
+						continue
+					}
+					unrec(st, outer)
+					continue
+				}
+				if s.Init != nil {
+					unrec(st, outer)
+					continue
+				}
+				// if options.F { T = true } [else {…}]
+				if fn, ok := optionsField(s.Cond); ok {
+					lhs, rhs, ok2 := singleAssign(s.Body)
+					if ok2 && exprString(rhs) == "true" {
+						t := exprString(lhs)
+						out = append(out, optFlow{fn, slotOf(t), t, "flag", "_", initOf(t), outer})
+					} else {
+						unrec(s.Body, append(append([]string(nil), outer...), exprString(s.Cond)))
+					}
+					if s.Else != nil {
+						neg := append(append([]string(nil), outer...), "!("+exprString(s.Cond)+")")
+						switch e := s.Else.(type) {
+						case *ast.BlockStmt:
+							walk(e.List, neg, false)
+						default:
+							unrec(e, neg)
+						}
+					}
+					continue
+				}
+				// if COND(options.F) { T = options.F }
+				if lhs, rhs, ok := singleAssign(s.Body); ok && s.Else == nil {
+					if fn, ok := optionsField(rhs); ok {
+						t := exprString(lhs)
+						out = append(out, optFlow{fn, slotOf(t), t, "set-if", strings.ReplaceAll(exprString(s.Cond), "options."+fn, "_"), initOf(t), outer})
+						continue
+					}
+				}
+				unrec(st, outer)
+			case *ast.RangeStmt:
+				// for _, e := range options.F { … T[k] = v … }
+				if fn, ok := optionsField(s.X); ok {
+					target := ""
+					ast.Inspect(s.Body, func(x ast.Node) bool {
+						if as, ok := x.(*ast.AssignStmt); ok && len(as.Lhs) == 1 {
+							if ix, ok := as.Lhs[0].(*ast.IndexExpr); ok {
+								t := exprString(ix.X)
+								if target == "" {
+									target = t
+								} else if target != t {
+									target = "unrecognised: several targets"
+								}
+							}
+						}
+						return true
+					})
+					out = append(out, optFlow{fn, slotOf(target), target, "range", "", initOf(target), outer})
+					continue
+				}
+				unrec(st, outer)
+			default:
+				unrec(st, outer)
+			}
+		}
+	}
+	walk(fd.Body.List, nil, true)
+	var items []string
+	for _, o := range out {
+		items = append(items, o.lean())
+	}
+	return "[" + strings.Join(fl, ", ") + "]", "[" + strings.Join(items, ",\n   ") + "]", nodeHash(&ast.BlockStmt{List: stmts}), nil
+}
+
 // ---- logger sources (go/types)
 
 func mentionsLogger(t types.Type, depth int) bool {
@@ -812,7 +1053,7 @@ func envStmt(f *ast.File) ast.Node {
 	return nil
 }
 
-func hashes(repo string) string {
+func hashes(repo string, newOptionsHash string) string {
 	var items []string
 	add := func(label, h string) { items = append(items, fmt.Sprintf("(%s, %s)", q(label), q(h))) }
 	if fset, f, err := common.ParseFile(repo, "interp/use.go"); err == nil {
@@ -825,6 +1066,7 @@ func hashes(repo string) string {
 		add("interp.Interpreter.ImportUsed", common.FuncHash(fset, f, "Interpreter", "ImportUsed"))
 		add("interp.fixKey", common.FuncHash(fset, f, "", "fixKey"))
 		add("interp.New.env", nodeHash(envStmt(f)))
+		add("interp.New.options", newOptionsHash)
 	} else {
 		add("interp.go", "unrecognised: "+err.Error())
 	}
@@ -904,6 +1146,10 @@ func main() {
 		if err != nil {
 			return "", err
 		}
+		optFields, optFlows, optHash, err := optionsFacts(repo)
+		if err != nil {
+			return "", err
+		}
 		var logger string
 		if os.Getenv("VERIF_C13_NOTYPES") != "" {
 			logger = "[]"
@@ -950,9 +1196,15 @@ def uses : List UseCall := %s
 def gateFlags : List GateFlag := %s
 def newOptions : List (String × String) := %s
 
+/-- interp/interp.go: the fields of Options; the statements of New that read them -/
+def optionFields : List (String × String) := %s
+def optFlows : List OptFlow :=
+  %s
+
 def facts : Facts :=
   { defaultKeys := defaultKeys, gated := gated, tables := tables, loggerReturning := loggerReturning, decls := decls,
-    rebinds := rebinds, locals := locals, builtins := builtins, uses := uses, gateFlags := gateFlags }
+    rebinds := rebinds, locals := locals, builtins := builtins, uses := uses, gateFlags := gateFlags,
+    optionFields := optionFields, optFlows := optFlows }
 
 /-- fingerprints of the functions / statements transcribed by hand -/
 def sourceHashes : List (String × String) :=
@@ -960,6 +1212,6 @@ def sourceHashes : List (String × String) :=
 end YaegiVerif.Generated.C13
 `, build.Default.GOOS, build.Default.GOARCH, build.Default.ReleaseTags[len(build.Default.ReleaseTags)-1],
 			leanKeys(keys, "   "), strings.Join(gated, ",\n   "), strings.Join(tl, ",\n"), logger, decls, rebinds, locals, builtins,
-			uses, flags, opts, hashes(repo)), nil
+			uses, flags, opts, optFields, optFlows, hashes(repo, optHash)), nil
 	})
 }
